@@ -110,6 +110,15 @@ def gen_program(r):
     return lines
 
 
+def added_ids(stored, pre_len):
+    """ids of the mutable objects reachable from the elements added to `stored` (not of a temporary slice list: a fresh list can be given the address of
+    the operand list that has just been freed, and would then look shared)"""
+    seen = set()
+    for i in range(pre_len, len(stored)):
+        heap.mutable_ids(list.__getitem__(stored, i), seen)
+    return seen
+
+
 class Watch:
     def __init__(self, ctx):
         self.ctx = ctx
@@ -118,6 +127,7 @@ class Watch:
         self.case = None
         self.judged = 0
         self.src = ''
+        self.keep = []
 
     def enter(self, node, state):
         self.state = state
@@ -137,6 +147,7 @@ class Watch:
             if parent in ('AssignOp', 'ShortOp'):
                 # snapshot of what the operand reaches NOW, before the assignment happens
                 self.stack[-1][1].append(heap.mutable_ids(value))
+                self.keep.append(value)          # keeps the operand's objects alive until the case ends: their addresses cannot be given to other objects
         k = type(node).__name__
         if k == 'AssignOp' and fr[1]:
             self.after_name_assign(node.name, fr[1][-1], state, compound=False)
@@ -172,7 +183,7 @@ class Watch:
                 return
             self.judged += 1
             ctx.count('compound_name_assignments_checked')
-            shared = rhs_ids & heap.mutable_ids(stored[pre_len:])
+            shared = rhs_ids & added_ids(stored, pre_len)
             if shared:
                 ctx.violation('x op= e: the stored value shares a mutable object with the operand', self.case,
                               detail={'src': self.src, 'name': name, 'shared_objects': len(shared)})
@@ -198,6 +209,7 @@ class Watch:
         def wrapper(container, key, *rest):
             value = rest[-1]
             rhs_ids = heap.mutable_ids(value)
+            W.keep.append(value)
             pre_len = None
             if compound:
                 try:
@@ -217,7 +229,7 @@ class Watch:
                 if rhs_ids and pre_len is not None and isinstance(stored, list) and len(stored) > pre_len:
                     W.judged += 1
                     ctx.count('compound_index_assignments_checked')
-                    shared = rhs_ids & heap.mutable_ids(stored[pre_len:])
+                    shared = rhs_ids & added_ids(stored, pre_len)
                     if shared:
                         ctx.violation('c[k] op= e: the stored value shares a mutable object with the operand', W.case,
                                       detail={'src': W.src, 'key': repr(key)[:40], 'shared_objects': len(shared)})
@@ -334,7 +346,7 @@ def run_case(case, ctx):
         lines = gen_program(r)
         in_lambda = r.random() < 0.25
     names = hostnames()
-    W.case, W.stack, W.state = case, [], None
+    W.case, W.stack, W.state, W.keep = case, [], None, []
     j0 = W.judged
     src = '\n'.join(lines)
     ast_names = None
